@@ -28,3 +28,15 @@ void flagsel_bad(char *a, char *b) { int all = 1; if (a != 0 && has_low(a)) all 
 /* the same in pointer form: a cursor walking from the end of the string towards its start */
 void strip_ptr_bad(char *s) { char *e = s + strlen(s) - 1; while (*e == '/') { *e = 0; --e; } }
 void strip_ptr_ok(char *s) { char *e = s + strlen(s) - 1; while (e >= s && *e == '/') { *e = 0; --e; } }
+/* unbounded string writers into fixed buffers (C08 R6) */
+extern int sprintf(char *, const char *, ...);
+extern char *strcpy(char *, const char *);
+void fmt_bad(double x) { char b[8]; sprintf(b, "%5.1f%%", x); touch(b); }
+void fmt_ok(int i) { char b[24]; sprintf(b, "%d/%3u", i, (unsigned) i); touch(b); }
+void fmt_s_bad(char *s) { char b[32]; sprintf(b, "%s", s); touch(b); }
+void fmt_s_ok(char *s) { char b[32]; sprintf(b, "[%.20s]", s); touch(b); }
+void cpy_bad(char *s) { char b[8]; strcpy(b, s); touch(b); }
+void cpy_ok(void) { char b[8]; strcpy(b, "abcdefg"); touch(b); }
+struct WithBuf { int a; char name[8]; int z; };
+void fld_bad(struct WithBuf *w, int i) { sprintf(w->name, "%d", i); }
+void fld_ok(struct WithBuf *w, int i) { sprintf(w->name, "%c%c", i, i); }
